@@ -188,21 +188,25 @@ func cmdCheck(id, tier string, writeBaseline bool) int {
 		}
 		sort.Strings(fnames)
 		for _, n := range fnames {
-			fn := prog.Func(n)
+			base, variant := n, ""
+			if i := strings.Index(n, "~"); i >= 0 {
+				base, variant = n[:i], n[i+1:]
+			}
+			fn := prog.Func(base)
 			if fn == nil {
 				all = append(all, OblResult{Name: n + "#contract:", Status: "unbound", Detail: "function not found", Func: n, Kind: "contract"})
 				continue
 			}
 			wg.Add(1)
-			go func(fn *ssa.Function) {
+			go func(fn *ssa.Function, variant string) {
 				defer wg.Done()
 				sem <- struct{}{}
 				defer func() { <-sem }()
-				rs := VerifyFunc(prog, specs, fn, tier, c, nil)
+				rs := verifyFuncVariant(prog, specs, fn, variant, tier, c, nil, nil)
 				mu.Lock()
 				all = append(all, rs...)
 				mu.Unlock()
-			}(fn)
+			}(fn, variant)
 		}
 		for _, l := range specs.Lemmas {
 			if !hasProp(l.Props, id) {
